@@ -11,6 +11,8 @@ import (
 	"encoding/json"
 	"errors"
 	"fmt"
+	"os"
+	"runtime/pprof"
 	"time"
 
 	"verif/lib/harness"
@@ -37,6 +39,7 @@ type caseRes struct {
 }
 
 var rig *graphRig
+var stopProfile = func() {}
 
 // evalCase runs one case and judges it. sig == "" means the property held.
 func evalCase(v *Val, withGraph bool) *caseRes {
@@ -114,6 +117,13 @@ func describe(kind string, r *vres) string {
 
 func main() {
 	c := harness.Init("C12")
+	if pf := os.Getenv("C12_CPUPROFILE"); pf != "" { // development aid
+		if f, err := os.Create(pf); err == nil {
+			pprof.StartCPUProfile(f)
+			defer pprof.StopCPUProfile()
+			stopProfile = pprof.StopCPUProfile
+		}
+	}
 	c.Res.Rule = "a case = (type shape, value of the shape's boundary domain); distinct by construction (canonical shape string, value index); non-trivial = every case whose shape is not a bare basic kind"
 	c.Res.Assumptions = []string{
 		"universe: 14 basic kinds, 4 named basic types, 11 fixed registered structs (basic, pointer, slice, map, any, nested, unexported, pointer-to-container, recursive fields) + Box{V any}; unnamed []string and map[string]int registered explicitly; arrays, named containers, pointer keys, *any, channels/funcs are outside the statement and not generated",
@@ -216,7 +226,9 @@ func main() {
 				var res *caseRes
 				if withGraph {
 					scen := fmt.Sprintf("%07d.%04d %s", shapeIdx, i, name)
-					c.Journal(scen, rec)
+					// No c.Journal here: every panic the code under test can raise in this stage (checkPointer.set/get
+					// run inside runner.run) is raised on the calling goroutine and caught by Guard / roundTrip; the node
+					// bodies are identity functions. (A journal write per case costs ~1.3 ms on this file system.)
 					if gerr := c.Guard(scen, rec, 120*time.Second, func() error { res = evalCase(val, true); return nil }); gerr != nil {
 						res = &caseRes{sig: "harness-panic", msg: gerr.Error(), outcome: "harness-panic", bindOK: true}
 					}
@@ -274,6 +286,7 @@ func main() {
 	}
 	c.Res.Transitions += extraSteps
 	c.Count("round_trip_steps_spent_on_attribution", extraSteps)
+	stopProfile()
 	if bindBad > 0 {
 		c.Res.Notes = append(c.Res.Notes, "some interrupt/resume observations differ in kind from the white-box verdict (see counters)")
 	}
@@ -281,6 +294,5 @@ func main() {
 }
 
 func harnessExit2() {
-	// infrastructure failure in replay mode
-	panic("C12 replay: infrastructure failure")
+	os.Exit(2) // infrastructure failure in replay mode
 }
